@@ -356,7 +356,7 @@ pub fn subs() -> Vec<Box<dyn DynSub>> {
 }
 
 pub fn run(ctx: &Ctx) {
-    let n = ctx.n(4_000_000, 60_000_000);
+    let n = ctx.n(4_000_000, 180_000_000);
     ctx.run_prop(&MonthStep, n);
     ctx.run_prop(&ReplaceDate, n);
     ctx.run_prop(&ReplaceTime, n / 2);
